@@ -14,6 +14,10 @@ of the map is absent, whether its whole input scaffold is missing (a scaffold sh
 are painted into a Target scaffold, sit in an untagged scaffold, or carry a tag).  Its destination does not depend on where
 the rest of its input scaffold went: Contaminant if a Target tag is seen anywhere in the map, else the haplotype its input
 scaffold is named after, else primary.
+Which tag is a haplotype's name is read from --help: "Upper case letters followed by zero or more digits are assumed to be
+chromosome names ... Any other tags are assumed to be the name of a haplotype" (pipeline_gen.read_scaffold_tags): h1, m, p1,
+1a, ii, HA, hap1 name haplotypes just as Hap1 does, and a scaffold carrying such a tag goes to that haplotype whatever the
+names of its pieces say.
 Known class "name-derived-haplotype" (README.md): an unplaced input scaffold whose name matches ^[^_]+_.+_\\d+$ with a
 prefix that is not a haplotype tag of the map is routed to an invented assembly.
 
@@ -66,6 +70,12 @@ from .common import Collector
 
 HAP_TAG_SETS = (("Hap1", "Hap2"), ("HAP1", "HAP2"), ("Mat", "Pat"), ("hapA", "hapB"), ("Maternal", "Paternal"))
 HAP_TAG_TRIPLES = (("Hap1", "Hap2", "Hap3"), ("Mat", "Pat", "Alt"))
+# haplotype names in other spellings.  --help: "Upper case letters followed by zero or more digits are assumed to be chromosome
+# names ... Any other tags are assumed to be the name of a haplotype": a lower-case letter with or without digits (hifiasm's
+# h1 / h2, m / p for maternal / paternal, a / b), digits before the letter, lower-case roman numerals, several upper-case
+# letters without or with digits - none of them is an upper-case letter followed by digits, all of them name haplotypes
+ODD_HAP_TAG_SETS = (("h1", "h2"), ("m", "p"), ("a", "b"), ("p1", "p2"), ("1a", "2a"), ("i", "ii"), ("HA", "HB"), ("MAT", "PAT"), ("hap1", "hap2"), ("x", "y"), ("Hb1", "Hb2"))
+ODD_HAP_TAG_TRIPLES = (("h1", "h2", "h3"), ("m", "p", "u"), ("a", "b", "c"))
 TAG_FILE_WORD = {"Haplotig": "haplotigs", "Contaminant": "contaminants", "FalseDuplicate": "falseduplicates"}
 
 
@@ -189,7 +199,22 @@ def name_derived(name, hap_tags):
     return bool(m) and m.group(1).lower() not in [h.lower() for h in hap_tags]
 
 
-def file_matches(fname, dest, hap_tags, haplotypes_only):
+FIXED_FILE_WORDS = {"primary", "curated", "agp", "tpf", "fa", "fasta"}
+
+
+def haplotypes_named(comps, tag_words, hap_tags, out_name):
+    """
+    the haplotypes a file name carries: a component beginning with a haplotype's name (the longest such name).  Components
+    that say something else are not read as haplotype names: those of the --output name the files are derived from (root,
+    version, extension), the words primary / curated, and the tag words (a haplotype called m, p or a must not be seen in
+    mVulVul1, primary or agp)
+    """
+    skip = FIXED_FILE_WORDS | set(tag_words) | set((out_name or "").lower().split("."))
+    haps = sorted((h.lower() for h in hap_tags), key=len, reverse=True)
+    return {next((h for h in haps if c.startswith(h)), None) for c in comps if c not in skip} - {None}
+
+
+def file_matches(fname, dest, hap_tags, haplotypes_only, out_name=None):
     """does the NAME of a written assembly file say `dest`?  (rules: see the module docstring)"""
     comps = fname.lower().split(".")
     tag_words = [c for c in comps if c in TAG_FILE_WORD.values() or c.endswith("_haplotigs")]
@@ -204,8 +229,7 @@ def file_matches(fname, dest, hap_tags, haplotypes_only):
     if tag_words:
         return False
     # the haplotypes the name carries: a component beginning with a haplotype's name (the longest such name)
-    haps = sorted((h.lower() for h in hap_tags), key=len, reverse=True)
-    named = {next((h for h in haps if c.startswith(h)), None) for c in comps} - {None}
+    named = haplotypes_named(comps, tag_words, hap_tags, out_name)
     if dest is None:
         return primary_curated and not named
     h = dest[1]
@@ -216,13 +240,12 @@ def file_matches(fname, dest, hap_tags, haplotypes_only):
     return "curated" in comps
 
 
-def file_matches_primary_mode(fname, dest, hap_tags, primary):
+def file_matches_primary_mode(fname, dest, hap_tags, primary, out_name=None):
     """Primary-tag mode: does the NAME of a written assembly file say `dest`?  (rules: see the module docstring)"""
     comps = fname.lower().split(".")
     tag_words = [c for c in comps if c in TAG_FILE_WORD.values() or c.endswith("_haplotigs")]
     primary_curated = any(a == "primary" and b == "curated" for a, b in zip(comps, comps[1:], strict=False))
-    haps = sorted((h.lower() for h in hap_tags), key=len, reverse=True)
-    named = {next((h for h in haps if c.startswith(h)), None) for c in comps} - {None}
+    named = haplotypes_named(comps, tag_words, hap_tags, out_name)
     if dest in pg.SPECIAL_TAGS:
         # the tag's own file: not curated, not primary, not the merged file of the other haplotypes
         return tag_words == [TAG_FILE_WORD[dest]] and "primary" not in comps and "curated" not in comps
@@ -305,6 +328,7 @@ def routing_problems(case, out, files=None):
     routes, absent, hap_tags, leftover = expected_routes(case)
     prim = primary_of(case, hap_tags)
     primary = prim[1] if prim else None
+    out_name = case.get("cli_out")
     if prim:
         # sequence of the curated haplotype walked before the Primary tag has been seen: not judged
         routes = [(pc, k, "ambiguous" if k < prim[0] and (d is None or d == ("hap", primary)) else d) for pc, k, d in routes]
@@ -335,12 +359,12 @@ def routing_problems(case, out, files=None):
             return
         names = fidx.where_of(toks)
         if primary is not None:
-            wrong = {n: c for n, c in names.items() if not file_matches_primary_mode(n, dest, hap_tags, primary)}
+            wrong = {n: c for n, c in names.items() if not file_matches_primary_mode(n, dest, hap_tags, primary, out_name)}
             if wrong:
                 file_problems.append((False, f"Primary-tag mode: {what} belongs in {show_file_dest_primary_mode(dest, primary)} but the command line wrote {wrong} bases to other files (files written: {sorted(files)})"))
             return
-        loose = {n: c for n, c in names.items() if not file_matches(n, dest, hap_tags, False)}
-        strict = {n: c for n, c in names.items() if not file_matches(n, dest, hap_tags, haplotypes_only)}
+        loose = {n: c for n, c in names.items() if not file_matches(n, dest, hap_tags, False, out_name)}
+        strict = {n: c for n, c in names.items() if not file_matches(n, dest, hap_tags, haplotypes_only, out_name)}
         if loose:
             file_problems.append((False, f"{what} belongs in {show_file_dest(dest, False)} but the command line wrote {loose} bases to other files (files written: {sorted(files)})"))
         elif strict:
@@ -556,6 +580,9 @@ def make_case(rng, idx, short_names=True):
     mode = rng.choice(("single", "single", "two", "two", "one"))
     bpt = rng.choice(pg.BPTS)
     hap_tags = () if mode == "single" else rng.choice(HAP_TAG_SETS)[: 2 if mode == "two" else 1]
+    if hap_tags and idx % 4 == 1:
+        # every fourth haplotype map: a tag set in another spelling (the seeded stream is not touched)
+        hap_tags = ODD_HAP_TAG_SETS[(idx // 4) % len(ODD_HAP_TAG_SETS)][: len(hap_tags)]
     n_src = rng.randint(3, 7)
     inp = []
     lens_big = [x for x in (40, 150, 400) if x >= 2 * bpt] or [400]
@@ -703,6 +730,8 @@ def precede_cases(tier, rng):
     n = 0
     for n_hap in (0, 1, 2, 3):
         tag_sets = [()] if n_hap == 0 else [t[:n_hap] for t in (HAP_TAG_SETS if n_hap < 3 else HAP_TAG_TRIPLES)]
+        if n_hap and not quick:
+            tag_sets += [t[:n_hap] for t in (ODD_HAP_TAG_SETS if n_hap < 3 else ODD_HAP_TAG_TRIPLES)]
         rotations = [0] if n_hap < 2 or quick else list(range(n_hap))
         n_painted = 3 if n_hap == 0 else 2 * n_hap
         places = [(kind, j) for kind in ("own", "ownp") for j in range(n_painted + 1)] + [(kind, j) for kind in ("tail", "mid", "cut") for j in range(n_painted)]
@@ -738,6 +767,8 @@ def primary_cases(tier, rng):
     n = 0
     for n_hap in (2, 3):
         tag_sets = [t[:n_hap] for t in (HAP_TAG_SETS if n_hap < 3 else HAP_TAG_TRIPLES)]
+        if not quick:
+            tag_sets += [t[:n_hap] for t in (ODD_HAP_TAG_SETS if n_hap < 3 else ODD_HAP_TAG_TRIPLES)]
         n_painted = 2 * n_hap
         places = [(kind, j) for kind in ("own", "ownp") for j in range(n_painted + 1)] + [(kind, j) for kind in ("tail", "mid", "cut") for j in range(n_painted)]
         for rot in [0] if quick else range(n_hap):
@@ -832,6 +863,90 @@ def precede_case(haps, rot, special, place, target, bpt, second, rng, n, primary
                 piece[4].append("Primary")
         case["primary_mode"] = haps[primary]
     return case
+
+
+# ------------------------------------------------------------------------------- haplotype tags decide, not names
+
+
+def moved_case(haps, style, first, target, bpt, rng, n):
+    """
+    a two-haplotype map (haplotypes haps = (A, B); `first` = index of the haplotype whose chromosome comes first) in which
+    the haplotype TAG of a scaffold and the NAME of its first piece disagree or the names say nothing:
+      Scaffold_1  painted, tagged X   one input scaffold of X                       (X = haps[first], Y = the other)
+      Scaffold_2  painted, tagged Y   one input scaffold of Y
+      Scaffold_3  painted, tagged X   an input scaffold of Y (moved to X by the curator), then one of X
+      Scaffold_4  painted, tagged Y   an input scaffold of X (moved to Y) alone
+      Scaffold_5  unpainted, untagged an input scaffold of X          -> by its name
+      Scaffold_6  unpainted, tagged Y an input scaffold of X          -> Y: the tag decides
+      Scaffold_7  unpainted, tagged X two pieces of one input scaffold of Y  -> X
+      Scaffold_8  unpainted, untagged an input scaffold of Y          -> by its name
+    style "prefixed": input scaffolds are named <haplotype>_scaffold_<n> (the haplotype's name in upper / lower / tag case);
+          "plain":    scaffold_<n>: no input name says anything, only the tags do, untagged unplaced scaffolds are primary;
+          "bare":     <haplotype>_scaffold_<n> for painted sources, scaffold_<n> for the unplaced ones.
+    target: every tagged scaffold also carries Target (the two untagged unplaced scaffolds become contaminants).
+    """
+    x, y = haps[first], haps[1 - first]
+    inp = []
+
+    def src(h, lengths, unplaced=False):
+        i = len(inp) + 1
+        if style == "plain" or (style == "bare" and unplaced):
+            name = f"scaffold_{i}"
+        else:
+            form = rng.choice((h.upper(), h.lower(), h))
+            name = f"{form}_SCAFFOLD_{i}" if form.isupper() and form != form.lower() else f"{form}_scaffold_{i}"
+        sc = pg.make_scaffold(name, lengths, [rng.choice((1, -1)) for _ in lengths], [(10, "scaffold")] * (len(lengths) - 1), "fasta", tag=str(i))
+        inp.append(sc)
+        return sc
+
+    def whole(sc):
+        return (pg.pieces_of(sc, bpt, "floor", ())[0], rng.choice((1, -1)), [])
+
+    def halves(sc):
+        n_tex = pg.texels(pg.rows_len(sc["rows"]), bpt, "floor")
+        return [(pc, rng.choice((1, -1)), []) for pc in pg.pieces_of(sc, bpt, "floor", (n_tex // 2,))]
+
+    def P(painted, hap, pieces):
+        return {"painted": painted, "hap": hap, "name_tag": None, "target": bool(target and hap), "pieces": pieces}
+
+    plan = [
+        P(True, x, [whole(src(x, [400]))]),
+        P(True, y, [whole(src(y, [350]))]),
+        P(True, x, [whole(src(y, [150])), whole(src(x, [250, 40]))]),
+        P(True, y, [whole(src(x, [200]))]),
+        P(False, None, [whole(src(x, [120], True))]),
+        P(False, y, [whole(src(x, [90], True))]),
+        P(False, x, halves(src(y, [150], True))),
+        P(False, None, [whole(src(y, [120], True))]),
+    ]
+    mp = pg.plan_to_map(plan, bpt, rng)
+    return {"input": inp, "map": mp, "prefix": ("SUPER_", "chr")[n % 2], "via": ("agp", "tpf", "objects")[n % 3], "mode": "two", "cli_out": CLI_OUT_NAMES[n % len(CLI_OUT_NAMES)], "moved": style}
+
+
+def moved_cases(tier, rng):
+    """
+    ENUMERATED scope "the haplotype tag decides" (statement: scaffolds carrying a haplotype tag go to that haplotype's
+    assembly): moved_case for EVERY haplotype tag set (HAP_TAG_SETS and the other spellings ODD_HAP_TAG_SETS: lower-case
+    letter + digits, single lower-case letters, digits + letters, lower-case roman numerals, several upper-case letters) x
+    naming style (prefixed / plain / bare).  Every case also runs the command line.
+    quick: one case per tag set and style (which haplotype comes first, Target mode and texel size rotate); thorough: x which
+    haplotype comes first x Target mode off / on x texel size 1 / 10 x 3 seeded repetitions (case of the names, tag placement
+    on all / first / last piece, strands).
+    """
+    quick = tier == "quick"
+    n = 0
+    for haps in HAP_TAG_SETS + ODD_HAP_TAG_SETS:
+        for si, style in enumerate(("prefixed", "plain", "bare")):
+            if quick:
+                n += 1
+                yield moved_case(haps, style, (n + si) % 2, n % 5 == 0, (1.0, 10.0)[(n // 2) % 2], rng, n)
+                continue
+            for first in (0, 1):
+                for target in (False, True):
+                    for bpt in (1.0, 10.0):
+                        for _ in range(3):
+                            n += 1
+                            yield moved_case(haps, style, first, target, bpt, rng, n)
 
 
 # ------------------------------------------------------------------------------- partly placed input scaffolds
@@ -1038,7 +1153,10 @@ def run(tier, seed, **opts):
         "proper subset of them absent from the map - dropped pieces and sub-texel tails rounded away -, the rest painted into a Target scaffold, "
         "in an untagged / Target-tagged unpainted scaffold before or after the first Target, or tagged Haplotig / Contaminant / "
         "FalseDuplicate / Unloc; Target mode on and off, 0-2 haplotypes): every absent contig is judged like an absent scaffold (Target "
-        "seen anywhere -> Contaminant, else haplotype by input name, else primary); every enumerated case and every n-th seeded case is also run through the "
+        "seen anywhere -> Contaminant, else haplotype by input name, else primary); PLUS an enumerated scope 'the haplotype TAG decides': two-haplotype maps in which "
+        "painted and unpainted scaffolds tagged with one haplotype begin with (or consist of) input scaffolds named after the other, or input names say nothing "
+        "(scaffold_<n>), for every haplotype tag set incl. other spellings (h1/h2, m/p, a/b, p1/p2, 1a/2a, i/ii, x/y, HA/HB, MAT/PAT, hap1/hap2, Hb1/Hb2: anything but an "
+        "upper-case letter followed by digits is documented as a haplotype name); every fourth seeded haplotype map uses one of these spellings; every enumerated case and every n-th seeded case is also run through the "
         "pretext-to-asm command line (TPF or AGP output) and every judged base is looked up in the written files, whose "
         "names must be the documented destination (*.contaminants.*, *.falseduplicates.*, *haplotigs.*, "
         "*.primary.curated.*, *.<hap>.*.primary.curated.*); non-trivial = distinct completed case with >= 1 judged "
@@ -1046,7 +1164,7 @@ def run(tier, seed, **opts):
     )
     n_cases = 4000 if tier == "quick" else 120000
     cli_every = 25 if tier == "quick" else 40  # every n-th seeded case is also run through the command line
-    stats = {"rejected_tagging": 0, "judged": 0, "single": 0, "one": 0, "two": 0, "three": 0, "enumerated": 0, "enumerated_rejected": 0, "cli": 0, "primary_mode": 0, "partial": 0, "partial_rejected": 0, "partial_with_absent_contigs": 0}
+    stats = {"rejected_tagging": 0, "judged": 0, "single": 0, "one": 0, "two": 0, "three": 0, "enumerated": 0, "enumerated_rejected": 0, "cli": 0, "primary_mode": 0, "moved": 0, "moved_rejected": 0, "partial": 0, "partial_rejected": 0, "partial_with_absent_contigs": 0}
     known_failures = {}
 
     def stream():
@@ -1058,6 +1176,8 @@ def run(tier, seed, **opts):
             yield "enumerated", -1, c
         for c in partial_cases(tier, random.Random(f"c09-partial-{seed}")):
             yield "partial", -1, c
+        for c in moved_cases(tier, random.Random(f"c09-moved-{seed}")):
+            yield "moved", -1, c
         for i in range(n_cases):
             c = make_case(rng, i)
             if i % cli_every == 5:
@@ -1074,6 +1194,9 @@ def run(tier, seed, **opts):
         if family == "enumerated":
             stats["enumerated"] += 1
             stats["enumerated_rejected"] += judged is None
+        if family == "moved":
+            stats["moved"] += 1
+            stats["moved_rejected"] += judged is None
         if family == "partial":
             stats["partial"] += 1
             stats["partial_rejected"] += judged is None
@@ -1092,7 +1215,8 @@ def run(tier, seed, **opts):
             "3-7 input scaffolds x <= 2 contigs, contig lengths {1,2,7,40,150,400}, texel sizes {1,2.5,10,33.3}, <= 2 cuts per "
             f"scaffold, <= 4 painted scaffolds; {len(FIXED_CASES)} fixed hand-made case + {stats['enumerated']} enumerated tagged-piece-position cases "
             f"(all enumerated; {stats['enumerated_rejected']} of them rejected; {stats['primary_mode']} in Primary-tag mode) + {stats['partial']} partly-placed-input-scaffold cases "
-            f"({stats['partial_rejected']} rejected, {stats['partial_with_absent_contigs']} completed with >= 1 contig of a placed scaffold absent from the map) + {n_cases} seeded cases; cases also run through the command line: {stats['cli']}; "
+            f"({stats['partial_rejected']} rejected, {stats['partial_with_absent_contigs']} completed with >= 1 contig of a placed scaffold absent from the map) + {stats['moved']} tag-against-name cases "
+            f"({stats['moved_rejected']} rejected) + {n_cases} seeded cases; cases also run through the command line: {stats['cli']}; "
             f"pieces/absent scaffolds judged: {stats['judged']}; maps "
             f"rejected with TaggingError/ChrNamerError (allowed, not judged): {stats['rejected_tagging']}; "
             f"modes: single={stats['single']} one-haplotype={stats['one']} two-haplotype={stats['two']} three-haplotype={stats['three']}; cases failing only in a "
